@@ -43,13 +43,72 @@ FieldSort = z3.ArraySort(I, Val)
 TYP = z3.Function("typ", I, I)   # class id of a reference: a function, not an array (immutable)
 
 
-class Heap:
-    __slots__ = ("alloc", "arr", "fld")
+def forall_pat(vs, body, pat):
+    """ForAll with an explicit trigger when z3 accepts it (terms containing `if` are refused)"""
+    try:
+        return z3.ForAll(vs, body, patterns=[pat])
+    except z3.Z3Exception:
+        return z3.ForAll(vs, body)
 
-    def __init__(self, alloc, arr, fld):
+
+class DictComps:
+    """the five components of one dict/set as stand-alone terms (usable in quantifier triggers)"""
+    def __init__(self, n, keys, has_arr, idx_arr, val_arr):
+        self.n, self.keys, self.has_arr, self.idx_arr, self.val_arr = n, keys, has_arr, idx_arr, val_arr
+
+    def has(self, k):
+        return z3.Select(self.has_arr, k)
+
+    def idx(self, k):
+        return z3.Select(self.idx_arr, k)
+
+    def val(self, k):
+        return z3.Select(self.val_arr, k)
+
+    def key(self, i):
+        return z3.Select(self.keys, i)
+
+    def wf(self):
+        i = z3.Int("wf_i")
+        k = z3.Const("wf_k", Val)
+        return [self.n >= 0,
+                z3.ForAll([i], z3.Implies(z3.And(0 <= i, i < self.n),
+                                          z3.And(self.has(self.key(i)), self.idx(self.key(i)) == i)),
+                          patterns=[self.key(i)]),
+                z3.ForAll([k], z3.Implies(self.has(k), z3.And(0 <= self.idx(k), self.idx(k) < self.n,
+                                                              self.key(self.idx(k)) == k)),
+                          patterns=[self.has(k)])]
+
+
+def fresh_key(ref):
+    """(epoch constant name, offset) for references of the syntactic form  <x>_alloc!n + c ; else None.
+    Two such references are distinct when they differ in the constant or in the offset: within one
+    allocation epoch offsets number the objects; a later epoch starts at or above everything allocated
+    before (havoc always comes with  new.alloc >= old.alloc)."""
+    s = z3.simplify(ref)
+    if z3.is_const(s) and s.decl().kind() == z3.Z3_OP_UNINTERPRETED and "alloc" in s.decl().name():
+        return (s.decl().name(), 0)
+    if z3.is_add(s) and s.num_args() == 2:
+        a, b = s.arg(0), s.arg(1)
+        if z3.is_int_value(b):
+            a, b = b, a
+        if z3.is_int_value(a) and z3.is_const(b) and b.decl().kind() == z3.Z3_OP_UNINTERPRETED \
+                and "alloc" in b.decl().name():
+            return (b.decl().name(), a.as_long())
+    return None
+
+
+class Heap:
+    """`known` is a purely syntactic overlay: (kind, fresh_key(ref)) -> the term Select(arr[kind], ref)
+    denotes.  It keeps freshly built objects concrete although z3's simplifier cannot decide
+    alloc+1 != alloc inside nested stores."""
+    __slots__ = ("alloc", "arr", "fld", "known")
+
+    def __init__(self, alloc, arr, fld, known=None):
         self.alloc = alloc
         self.arr = arr          # dict kind -> z3 array
         self.fld = fld          # dict field name -> z3 array
+        self.known = known if known is not None else {}
 
     @staticmethod
     def symbolic(tag="h") -> "Heap":
@@ -57,7 +116,27 @@ class Heap:
                     {k: fresh(f"{tag}_{k}", s) for k, s in ARR_KINDS.items()}, {})
 
     def copy(self) -> "Heap":
-        return Heap(self.alloc, dict(self.arr), dict(self.fld))
+        return Heap(self.alloc, dict(self.arr), dict(self.fld), dict(self.known))
+
+    def _get(self, kind, ref):
+        k = fresh_key(ref)
+        if k is not None and (kind, k) in self.known:
+            return self.known[(kind, k)]
+        arr = self.arr[kind] if not kind.startswith("fld:") else self.field_arr(kind[4:])
+        return z3.Select(arr, ref)
+
+    def _put(self, kind, ref, val):
+        """in place on a fresh copy"""
+        if kind.startswith("fld:"):
+            self.fld[kind[4:]] = z3.Store(self.field_arr(kind[4:]), ref, val)
+        else:
+            self.arr[kind] = z3.Store(self.arr[kind], ref, val)
+        k = fresh_key(ref)
+        if k is None:
+            for key in [x for x in self.known if x[0] == kind]:
+                del self.known[key]
+        else:
+            self.known[(kind, k)] = val
 
     # fields ----------------------------------------------------------------------------------
     def field_arr(self, name: str):
@@ -68,62 +147,62 @@ class Heap:
         return self.fld[name]
 
     def get_field(self, ref, name: str):
-        return z3.Select(self.field_arr(name), ref)
+        return self._get("fld:" + name, ref)
 
     def set_field(self, ref, name: str, val) -> "Heap":
         h = self.copy()
-        h.fld[name] = z3.Store(self.field_arr(name), ref, val)
+        h._put("fld:" + name, ref, val)
         return h
 
     # allocation ------------------------------------------------------------------------------
     def allocate(self, cls: str):
         """returns (heap', ref, facts) — facts: typ[ref] == class id"""
-        ref = self.alloc
+        ref = z3.simplify(self.alloc)
         h = self.copy()
-        h.alloc = self.alloc + 1
+        h.alloc = z3.simplify(self.alloc + 1)
         return h, ref, [TYP(ref) == class_id(cls)]
 
     # lists -----------------------------------------------------------------------------------
     def llen(self, ref):
-        return z3.Select(self.arr["llen"], ref)
+        return self._get("llen", ref)
 
     def lelems(self, ref):
-        return z3.Select(self.arr["lelem"], ref)
+        return self._get("lelem", ref)
 
     def lget(self, ref, i):
         return z3.Select(self.lelems(ref), i)
 
     def set_list(self, ref, n, elems) -> "Heap":
         h = self.copy()
-        h.arr["llen"] = z3.Store(self.arr["llen"], ref, n)
-        h.arr["lelem"] = z3.Store(self.arr["lelem"], ref, elems)
+        h._put("llen", ref, n)
+        h._put("lelem", ref, elems)
         return h
 
     def lset(self, ref, i, v) -> "Heap":
         h = self.copy()
-        h.arr["lelem"] = z3.Store(self.arr["lelem"], ref, z3.Store(self.lelems(ref), i, v))
+        h._put("lelem", ref, z3.Store(self.lelems(ref), i, v))
         return h
 
     # dicts -----------------------------------------------------------------------------------
     def dlen(self, ref):
-        return z3.Select(self.arr["dlen"], ref)
+        return self._get("dlen", ref)
 
     def dkeys(self, ref):
-        return z3.Select(self.arr["dkeys"], ref)
+        return self._get("dkeys", ref)
 
     def dhas(self, ref, k):
-        return z3.Select(z3.Select(self.arr["dhas"], ref), k)
+        return z3.Select(self._get("dhas", ref), k)
 
     def didx(self, ref, k):
-        return z3.Select(z3.Select(self.arr["didx"], ref), k)
+        return z3.Select(self._get("didx", ref), k)
 
     def dget(self, ref, k):
-        return z3.Select(z3.Select(self.arr["dval"], ref), k)
+        return z3.Select(self._get("dval", ref), k)
 
     def set_dict_empty(self, ref) -> "Heap":
         h = self.copy()
-        h.arr["dlen"] = z3.Store(self.arr["dlen"], ref, z3.IntVal(0))
-        h.arr["dhas"] = z3.Store(self.arr["dhas"], ref, z3.K(Val, z3.BoolVal(False)))
+        h._put("dlen", ref, z3.IntVal(0))
+        h._put("dhas", ref, z3.K(Val, z3.BoolVal(False)))
         return h
 
     def dict_wf(self, ref):
@@ -132,34 +211,36 @@ class Heap:
         k = z3.Const("wf_k", Val)
         n = self.dlen(ref)
         keys = self.dkeys(ref)
-        return [
-            n >= 0,
-            z3.ForAll([i], z3.Implies(z3.And(0 <= i, i < n),
-                                      z3.And(self.dhas(ref, z3.Select(keys, i)),
-                                             self.didx(ref, z3.Select(keys, i)) == i)),
-                      patterns=[z3.Select(keys, i)]),
-            z3.ForAll([k], z3.Implies(self.dhas(ref, k),
-                                      z3.And(0 <= self.didx(ref, k), self.didx(ref, k) < n,
-                                             z3.Select(keys, self.didx(ref, k)) == k)),
-                      patterns=[self.dhas(ref, k)]),
-        ]
+        b1 = z3.Implies(z3.And(0 <= i, i < n),
+                        z3.And(self.dhas(ref, z3.Select(keys, i)), self.didx(ref, z3.Select(keys, i)) == i))
+        b2 = z3.Implies(self.dhas(ref, k),
+                        z3.And(0 <= self.didx(ref, k), self.didx(ref, k) < n,
+                               z3.Select(keys, self.didx(ref, k)) == k))
+        return [n >= 0, forall_pat([i], b1, z3.Select(keys, i)), forall_pat([k], b2, self.dhas(ref, k))]
 
     def dset(self, ref, k, v) -> "Heap":
         """d[k] = v  (insertion keeps order; existing key keeps its position)"""
         h = self.copy()
-        has = self.dhas(ref, k)
-        n = self.dlen(ref)
-        h.arr["dlen"] = z3.Store(self.arr["dlen"], ref, z3.If(has, n, n + 1))
-        h.arr["dkeys"] = z3.Store(self.arr["dkeys"], ref,
-                                  z3.If(has, self.dkeys(ref), z3.Store(self.dkeys(ref), n, k)))
-        h.arr["dhas"] = z3.Store(self.arr["dhas"], ref,
-                                 z3.Store(z3.Select(self.arr["dhas"], ref), k, z3.BoolVal(True)))
-        h.arr["didx"] = z3.Store(self.arr["didx"], ref,
-                                 z3.If(has, z3.Select(self.arr["didx"], ref),
-                                       z3.Store(z3.Select(self.arr["didx"], ref), k, n)))
-        h.arr["dval"] = z3.Store(self.arr["dval"], ref,
-                                 z3.Store(z3.Select(self.arr["dval"], ref), k, v))
+        has = z3.simplify(self.dhas(ref, k))
+        n = z3.simplify(self.dlen(ref))
+        h._put("dlen", ref, z3.simplify(z3.If(has, n, n + 1)))
+        h._put("dkeys", ref, z3.simplify(z3.If(has, self.dkeys(ref), z3.Store(self.dkeys(ref), n, k))))
+        h._put("dhas", ref, z3.Store(self._get("dhas", ref), k, z3.BoolVal(True)))
+        h._put("didx", ref, z3.simplify(z3.If(has, self._get("didx", ref), z3.Store(self._get("didx", ref), k, n))))
+        h._put("dval", ref, z3.Store(self._get("dval", ref), k, v))
         return h
+
+    def fresh_dict_at(self, ref, tag="fd"):
+        """heap in which the dict/set at ref has unknown contents; every other object is untouched"""
+        h = self.copy()
+        comps = DictComps(fresh(f"{tag}_dlen", I), fresh(f"{tag}_dkeys", ArrIV), fresh(f"{tag}_dhas", ArrVB),
+                          fresh(f"{tag}_didx", ArrVI), fresh(f"{tag}_dval", ArrVV))
+        h._put("dlen", ref, comps.n)
+        h._put("dkeys", ref, comps.keys)
+        h._put("dhas", ref, comps.has_arr)
+        h._put("didx", ref, comps.idx_arr)
+        h._put("dval", ref, comps.val_arr)
+        return h, comps
 
     # havoc -----------------------------------------------------------------------------------
     def havoc(self, kinds, fields, tag="hv") -> "Heap":
@@ -168,6 +249,8 @@ class Heap:
             h.arr[k] = fresh(f"{tag}_{k}", ARR_KINDS[k])
         for f in fields:
             h.fld[f] = fresh(f"{tag}_fld_{f}", FieldSort)
+        gone = set(kinds) | {"fld:" + f for f in fields}
+        h.known = {key: v for key, v in self.known.items() if key[0] not in gone}
         h.alloc = fresh(f"{tag}_alloc", I)
         return h
 
